@@ -610,8 +610,9 @@ func (hp *HPACK) AppendHeader(dst []byte, hf *HeaderField, store bool) []byte {
 
 	index, fullMatch = hp.search(hf)
 	if hf.sensible {
+		// never indexed literal: 0001 followed by a 4 bit prefix
 		c = false
-		dst = append(dst, 16)
+		bits, dst = 4, append(dst, 16)
 	} else {
 		if index > 0 { // key and/or value can be used as index
 			if fullMatch {
